@@ -1,4 +1,84 @@
-(* C18 placeholder: theorems are added in ProfProof.v *)
-From SCK Require Import ProfModel.
-Theorem C18_placeholder : True. Proof. exact I. Qed.
-Print Assumptions C18_placeholder.
+(* C18 — profile conversions and valuation generators preserve preference information. Statements only.
+   Models: ProfModel.v (specification-level: ranks by counting; tied to the code by exact comparison wherever the
+   code's result is determined, by validity checkers where numpy's unstable sort / RNG leave it open).
+   None = NaN. *)
+From Coq Require Import Arith ZArith QArith Qround Qabs List Bool Lia.
+Import ListNotations.
+From SCK Require Import ProfModel ProfProof.
+Local Open Scope nat_scope.
+
+(* --- deriving an ordinal profile from valuations --- *)
+Theorem C18_ordinal_keeps_nan : forall row j, nth_error (ordinal_row row) j = Some None <-> nth_error row j = Some None.
+Proof. exact ordinal_nan_pattern. Qed.
+Print Assumptions C18_ordinal_keeps_nan.
+Theorem C18_ordinal_higher_value_better_rank : forall row a b x y,
+  nth_error row a = Some (Some x) -> nth_error row b = Some (Some y) -> (y < x)%Q ->
+  exists ra rb, nth_error (ordinal_row row) a = Some (Some (inject_Z (Z.of_nat ra))) /\
+                nth_error (ordinal_row row) b = Some (Some (inject_Z (Z.of_nat rb))) /\ ra < rb.
+Proof. exact ordinal_order. Qed.
+Print Assumptions C18_ordinal_higher_value_better_rank.
+(* the k non-NaN entries get pairwise different ranks inside 1..k, i.e. exactly the ranks 1..k *)
+Theorem C18_ordinal_ranks_1_to_k : forall row a x, nth_error row a = Some (Some x) ->
+  exists r, nth_error (ordinal_row row) a = Some (Some (inject_Z (Z.of_nat r))) /\ 1 <= r <= somes row /\
+  forall b y, nth_error row b = Some (Some y) -> a <> b -> nth_error (ordinal_row row) b <> Some (Some (inject_Z (Z.of_nat r))).
+Proof. exact ordinal_ranks. Qed.
+Print Assumptions C18_ordinal_ranks_1_to_k.
+
+(* --- breaking ties ('first'; after repair 51f73fb) --- *)
+Theorem C18_strictify_keeps_nan : forall row j, nth_error (strict_row row) j = Some None <-> nth_error row j = Some None.
+Proof. exact strict_nan_pattern. Qed.
+Print Assumptions C18_strictify_keeps_nan.
+Theorem C18_strictify_preserves_strict_comparisons : forall row a b x y,
+  nth_error row a = Some (Some x) -> nth_error row b = Some (Some y) -> ((x < y)%Q \/ ((x == y)%Q /\ a < b)) ->
+  exists ra rb, nth_error (strict_row row) a = Some (Some (inject_Z (Z.of_nat ra))) /\
+                nth_error (strict_row row) b = Some (Some (inject_Z (Z.of_nat rb))) /\ ra < rb.
+Proof. exact strict_preserves. Qed.
+Print Assumptions C18_strictify_preserves_strict_comparisons.
+Theorem C18_strictify_result_is_strict : forall row a x, nth_error row a = Some (Some x) ->
+  exists r, nth_error (strict_row row) a = Some (Some (inject_Z (Z.of_nat r))) /\ 1 <= r <= somes row /\
+  forall b y, nth_error row b = Some (Some y) -> a <> b -> nth_error (strict_row row) b <> Some (Some (inject_Z (Z.of_nat r))).
+Proof. exact strict_is_strict. Qed.
+Print Assumptions C18_strictify_result_is_strict.
+
+(* --- completing an incomplete profile --- *)
+Theorem C18_completion_keeps_existing_ranks : forall accept row j x,
+  nth_error row j = Some (Some x) -> nth_error (complete_row accept row) j = Some (Some x).
+Proof. exact complete_keeps. Qed.
+Print Assumptions C18_completion_keeps_existing_ranks.
+Theorem C18_completion_ranks_missing_after : forall accept row j, nth_error row j = Some None ->
+  let m := length row in let k := m - somes row in
+  exists r, nth_error (complete_row accept row) j = Some (Some (inject_Z (Z.of_nat r))) /\ m - k + 1 <= r /\
+  (accept = true -> r = m - k + 1) /\
+  (accept = false -> r = m - k + 1 + (j - somes (firstn j row)) /\ r <= m).
+Proof. exact complete_fills. Qed.
+Print Assumptions C18_completion_ranks_missing_after.
+
+(* --- generators (the draws are an oracle: any list of rationals) --- *)
+Theorem C18_generator_keeps_nan : forall clip row draws j, nth_error (gen_row clip row draws) j = Some None <-> nth_error row j = Some None.
+Proof. exact gen_nan_pattern. Qed.
+Print Assumptions C18_generator_keeps_nan.
+Theorem C18_generator_rank_r_gets_rth_largest : forall clip row draws j r, nth_error row j = Some (Some r) ->
+  nth_error (gen_row clip row draws) j = Some (Some (nth (Z.to_nat (Qfloor r) - 1) (gen_vals clip draws) 0%Q)).
+Proof. exact gen_row_entry. Qed.
+Print Assumptions C18_generator_rank_r_gets_rth_largest.
+Theorem C18_generator_weakly_decreasing_along_ranking : forall (clip : bool) draws p q,
+  (0 < sumq (if clip then clip0 draws else draws))%Q -> p <= q -> q < length draws ->
+  (nth q (gen_vals clip draws) 0 <= nth p (gen_vals clip draws) 0)%Q.
+Proof. exact gen_monotone. Qed.
+Print Assumptions C18_generator_weakly_decreasing_along_ranking.
+Theorem C18_generator_nonnegative : forall (clip : bool) draws p,
+  (forall x, In x (if clip then clip0 draws else draws) -> (0 <= x)%Q) -> (0 < sumq (if clip then clip0 draws else draws))%Q ->
+  (0 <= nth p (gen_vals clip draws) 0)%Q.
+Proof. exact gen_nonneg. Qed.
+Print Assumptions C18_generator_nonnegative.
+
+(* --- the consistency predicate rejects clear inversions --- *)
+Theorem C18_predicate_rejects_clear_inversions : forall prow vrow p q, consistent_row prow vrow = true ->
+  length (by_rank prow vrow) = length vrow -> p <= q -> q < length vrow ->
+  let x := by_rank prow vrow in let s := sort_desc vrow in
+  (nth q x 0 - nth p x 0 <= band (nth p s 0) + band (nth q s 0))%Q.
+Proof. exact consistent_rejects_inversions. Qed.
+Print Assumptions C18_predicate_rejects_clear_inversions.
+
+(* NOT proved (decided per case by the oracle): the normalised generated values sum to 1 over the row, the
+   predicate accepts every generated profile, seed reproducibility (a property of numpy's RNG). *)
